@@ -119,6 +119,8 @@ pub fn mix_for(focus: &str) -> Mix {
             m.get = 2;
         }
         "C08" => {
+            // (sPub on streams whose sPubInit was refused included: SPubNth counts every init)
+            m.spub = 8;
             m.sys_attack = 40;
             m.set = 5;
             m.get = 3;
@@ -399,6 +401,39 @@ pub fn gen_plan(rng: &mut Rng, focus: &str, thorough: bool) -> WirePlan {
             }
         }
         ops.push(Op::Req(json!({"pDelete": {"requestPattern": pat}})));
+    }
+    // a registration that ends *before* the leader is lost: one client registers and leaves in an
+    // orderly way, another one writes into the pattern and onto the last-will key afterwards and
+    // stays. Nothing of the first client's registrations may be executed later (on a follower or
+    // on the leader promoted from it).
+    if matches!(focus, "C11" | "C12") && rng.chance(1, 3) {
+        clients.push(ClientPlan {
+            proto: Some(1),
+            pipeline: false,
+            start_delay_us: rng.range(0, 20_000),
+            think_us: 0,
+            ops: vec![
+                Op::Req(json!({"set": {"key": "$SYS/clients/<SELF>/graveGoods", "value": ["q/#"]}})),
+                Op::Req(json!({"set": {"key": "$SYS/clients/<SELF>/lastWill", "value": [{"key": "q/w", "value": "left"}]}})),
+                Op::Req(json!({"get": {"key": "q/w"}})),
+            ],
+            end: EndKind::Close,
+            crash_after_op: None,
+            auth_token: None,
+        });
+        clients.push(ClientPlan {
+            proto: Some(1),
+            pipeline: false,
+            start_delay_us: 400_000 + rng.range(0, 50_000),
+            think_us: 0,
+            ops: vec![
+                Op::Req(json!({"set": {"key": "q/k", "value": "kept"}})),
+                Op::Req(json!({"set": {"key": "q/w", "value": "rewritten"}})),
+            ],
+            end: EndKind::Stay,
+            crash_after_op: None,
+            auth_token: None,
+        });
     }
     // an import that re-states a value some client writes, but as another kind of entry or with
     // another CAS version: nothing visible changes except cget's version and what later writes
